@@ -7,7 +7,7 @@ Open Scope N_scope.
 Definition P10 (f : frame) (s : st) : Prop :=
   match f with
   | FConn | FConnErr => closes s = 0%nat /\ inited s = false
-  | FRead | FHandler | FChangeUser | FHandlerErr _ | FKillErr => closes s = 0%nat /\ inited s = true
+  | FRead | FHandler | FChangeUser | FChangeUserReset | FHandlerErr _ | FKillErr => closes s = 0%nat /\ inited s = true
   | FClose _ => closes s = 1%nat /\ inited s = true
   end.
 Definition D10 (s : st) : Prop := closes s = Nat.b2n (inited s).
